@@ -381,6 +381,55 @@ def r_binders(ck: Checker) -> None:
         ck.guard(f"aggregate {g} binds only as a positive `=`", body, c, f"stm.sign == Sign.NoSign and stm.atom.{g}.comparison == ComparisonOperator.Equal", "`X = #sum{..}` binds X, `not X = #sum{..}` and `X < #sum{..}` do not")
 
 
+def r_head_binders(ck: Checker) -> None:
+    """TABLE collect_binding_information_head: per head kind, what the body has to bind"""
+    func = ck.func("utils.ast:collect_binding_information_head")
+    head = func.params()[0]
+    rets = [r for r in returns_of(func) if isinstance(r.value, ast.Tuple) and len(r.value.elts) == 2]
+    ck.need(len(rets) == 1 and all(isinstance(e, ast.Name) for e in rets[0].value.elts), "returns (need_bound, no_bound_needed)")  # type: ignore[union-attr]
+    need, free = (e.id for e in rets[0].value.elts)  # type: ignore[union-attr]
+    conds = resolved_calls(ck.prg, func, "ngo.utils.ast:_collect_binding_information_conditions")
+    ck.need(len(conds) >= 3, "element conditions are analysed for every head kind with elements")
+    for kind, cond_field, lit_src in (("HeadAggregate", "condition.condition", "condition.literal"), ("Aggregate", "condition", "literal"), ("Disjunction", "condition", "literal")):
+        it = ck.interp(func, Pins.of(vals={f"{head}.ast_type": f"ASTType.{kind}"}))
+        mine = [c for c in conds if it.reachable(c)]
+        ck.need(len(mine) == 1, f"{kind}: one analysis of the element condition")
+        call = mine[0]
+        asg = enclosing_stmt(func, call)
+        ok_shape = isinstance(asg, ast.Assign) and isinstance(asg.targets[0], ast.Tuple) and len(asg.targets[0].elts) == 2 and all(isinstance(e, ast.Name) for e in asg.targets[0].elts)
+        ck.need(ok_shape, f"{kind}: (bound, unbound) of the element condition")
+        b, u = (e.id for e in asg.targets[0].elts)  # type: ignore[union-attr]
+        elem = unparse(call.args[0]).removesuffix("." + cond_field)
+        ck.add(f"{kind}: the element's own condition is analysed, with the body's bindings as context", unparse(call.args[0]) == f"{elem}.{cond_field}" and unparse(call.args[1]) == "bound_in_body", func, call, f"`{fmt(call)}`", "")
+        ups_need = [c for c in attr_calls(func, "update") if unparse(c.func.value) == need and it.reachable(c) and enclosing_loop(func, c) is enclosing_loop(func, call)]  # type: ignore[attr-defined]
+        ups_free = [c for c in attr_calls(func, "update") if unparse(c.func.value) == free and it.reachable(c) and enclosing_loop(func, c) is enclosing_loop(func, call)]  # type: ignore[attr-defined]
+        args_need = {unparse(c.args[0]).replace(" ", "") for c in ups_need}
+        ck.add(f"{kind}: variables the condition leaves unbound must be bound by the body", u in args_need, func, call, f"need_bound receives {sorted(args_need)}",
+               "`a(X) : dom(X), X < Y` needs Y from the body: if it is not reported, math drops the body equation that defines Y and the rule becomes unsafe")
+        lit_ok = any(re.fullmatch(rf"(\w+)-{b}", a) for a in args_need) or (f"term_vars" in args_need and any(unparse(n).replace(" ", "") == f"term_vars-={b}" for n in find_nodes(func.node, lambda n: isinstance(n, ast.AugAssign))))
+        ck.add(f"{kind}: variables of the element's atom (and tuple) not bound by its condition must be bound by the body", lit_ok, func, call, f"need_bound receives {sorted(args_need)}", "")
+        ck.add(f"{kind}: variables the condition binds need no binding from the body", {unparse(c.args[0]) for c in ups_free} == {b}, func, call, f"no_bound_needed receives {sorted(unparse(c.args[0]) for c in ups_free)}", "")
+
+
+def r_global_vars(ck: Checker) -> None:
+    """global variables of a body / head = everything the binding analysis reports, bound or not"""
+    for name, callee, arg2 in (("global_vars_inside_body", "collect_binding_information_body", None), ("global_vars_inside_head", "collect_binding_information_head", "[]"), ("collect_bound_variables", "collect_binding_information_body", None)):
+        func = ck.func(f"utils.ast:{name}")
+        p = func.params()[0]
+        rets = [r for r in returns_of(func) if r.value is not None]
+        ck.need(len(rets) == 1, f"{name} is a one-liner over the binding analysis")
+        call = f"{callee}({p})" if arg2 is None else f"{callee}({p}, {arg2})"
+        txts = ck.interp(func).texts(rets[0], rets[0].value)
+        ck.need(len(txts) == 1, f"{name} returns one expression")
+        txt = next(iter(txts))
+        if name == "collect_bound_variables":
+            ck.add(f"{name} = first component (bound variables)", txt == f"{call}[0]", func, rets[0], f"`{fmt(rets[0])}`", "")
+            continue
+        ok = txt in (f"set.union(*{call})", f"{call}[0] | {call}[1]", f"{call}[0].union({call}[1])", f"set().union(*{call})")
+        ck.add(f"{name} = both components of the binding analysis", ok, func, rets[0], f"`{fmt(rets[0])}`",
+               "a variable that a head condition (or a body literal) can bind itself is still global when it also occurs outside: dropped from the set it turns local in a split-off or factored rule (`{ h(A,F,D) : s(D) } :- q(A,B,D), ...`)")
+
+
 RULES = [
     Rule("C07.unique-names", P7 + P4, r_unique_names),
     Rule("C07.FRESH.predicate", P7 + ("C12",), r_fresh_predicates),
@@ -390,4 +439,6 @@ RULES = [
     Rule("C07.FLOW.passthrough", P7, r_passthrough),
     Rule("C04.lexical", P4, r_lexical),
     Rule("C04.TABLE.binders", P4 + ("C16", "C10"), r_binders),
+    Rule("C04.TABLE.head-binders", P4 + ("C14", "C16"), r_head_binders),
+    Rule("C04.global-vars", P4 + ("C16", "C10", "C11", "C14", "C01"), r_global_vars),
 ]
